@@ -368,7 +368,7 @@ def _units(plan):
     for c, ops in enumerate(plan["clients"]):
         for j, op in enumerate(ops):
             if op["op"] in ("apply", "str", "getitem", "modules", "scan", "drop"):
-                units.append(("op", c, j))
+                units.append(("op", c, j, canon(op)))
             elif op["op"] == "new" and op["obj"] not in objs:
                 objs.append(op["obj"])
     units.sort(key=lambda u: (-u[1], -u[2]))  # back to front keeps indices valid per pass
@@ -378,9 +378,11 @@ def _units(plan):
 def _drop_unit(plan, unit):
     p = copy.deepcopy(plan)
     if unit[0] == "op":
-        _, c, j = unit
-        if c >= len(p["clients"]) or j >= len(p["clients"][c]):
-            return p
+        _, c, j, what = unit
+        if c >= len(p["clients"]) or j >= len(p["clients"][c]) or canon(p["clients"][c][j]) != what:
+            # the plan changed since the units were listed (an object went, indices moved):
+            # never cut into a builder chain by accident
+            return None
         return _drop_ops(p, c, j, j + 1)
     dead = {unit[1]}
     grew = True
@@ -465,7 +467,8 @@ def minimise(plan, hashseeds, sig, pool, budget_s=120):
             for unit in _units(cur):
                 if time.time() - t0 > budget_s:
                     break
-                cand = _prune(_drop_unit(cur, unit))
+                cand = _drop_unit(cur, unit)
+                cand = _prune(cand) if cand is not None else None
                 if cand is not None and fails(cand):
                     cur, changed = cand, True
         else:
